@@ -82,3 +82,47 @@ func CollidingTails(prefix string) [][]string {
 
 	return groups
 }
+
+var (
+	crossMu    sync.Mutex
+	crossCache = map[string][][2]string{}
+)
+
+// CrossCollisions returns pairs of texts pa+x and pb+y (x, y short tails) with
+// the same FastHash: two DIFFERENT prefixes, e.g. a blocking rule and an
+// exception.  n tails are tried on each side (about n*n/2^32 pairs are found).
+func CrossCollisions(pa, pb string, n int) (pairs [][2]string) {
+	key := pa + "\x00" + pb
+	crossMu.Lock()
+	defer crossMu.Unlock()
+	if p, ok := crossCache[key]; ok {
+		return p
+	}
+	// Ten pseudo-random characters per tail (short structured tails do not mix
+	// enough under this hash to meet across different prefixes).
+	tail := func(i int) string {
+		x := uint64(i)*0x9e3779b97f4a7c15 + 0x1234567
+		var b [10]byte
+		for k := range b {
+			x ^= x >> 30
+			x *= 0xbf58476d1ce4e5b9
+			x ^= x >> 27
+			b[k] = collideAlphabet[x%uint64(len(collideAlphabet))]
+		}
+
+		return string(b[:])
+	}
+	byHash := make(map[uint32]int, n)
+	for i := 0; i < n; i++ {
+		byHash[filterutil.FastHash(pa+tail(i))] = i
+	}
+	for j := 0; j < n; j++ {
+		t := pb + tail(j)
+		if i, ok := byHash[filterutil.FastHash(t)]; ok {
+			pairs = append(pairs, [2]string{pa + tail(i), t})
+		}
+	}
+	crossCache[key] = pairs
+
+	return pairs
+}
